@@ -40,6 +40,8 @@ pub fn meta(prop: &str) -> Option<Meta> {
         "C20" => m("exploration", "bookkeeping snapshot (hook) recomputed from the model's live tree after every step of fork/discard/shared-transaction histories with upgrades; distinct = fingerprint of (tree shape, threshold, network, forks, cached tx outs)", 35.0, 600.0),
         "C06" => m("exploration", "page chains (page sizes 1..7 through the hook; 1000 in the thorough tier) started on forked histories with 0-2 events between consecutive page requests drawn from {best chain grows, competing fork grows, ancestors stabilise, the chain of the first tip is discarded, upgrade}, plus forged and random page blobs; distinct = fingerprint of (event sequence, pages, elements, tree shape)", 35.0, 600.0),
         "C08" => m("fault_enumeration", "scripted histories replayed under per-round instruction budgets (random, pause-everywhere, and for a designed small block every subset of pause positions) against an unsliced twin; full user-visible snapshot compared at every pause point with the one taken before the ingestion began; distinct = distinct (history, pause set) pairs", 45.0, 900.0),
+        "C10" => m("exploration", "block-source responses of 1-6 elements delivered through the real heartbeat path with one bad element (18 classes: random/empty/truncated bytes, trailing bytes, duplicates of unstable/anchor/stable blocks, orphan, child of a stable-only ancestor, future/old timestamp, wrong or excessive bits, bad PoW, bad merkle root, no coinbase, no transactions, duplicated transactions) at every position, valid blocks before and after it, and garbage announced headers; distinct = (class, position, suffix length, tree size)", 35.0, 600.0),
+        "C12" => m("exploration", "valid regtest blocks with every transaction count 1..40 (legacy and witness-carrying) and, for each, the complete families of merkle-preserving duplications (every level with an odd group count, and compositions), adjacent swaps, single removals, coinbase moved/duplicated/absent, replaced header root; verdict of BlockValidator::validate_block and of state::insert_block compared with an own merkle/uniqueness checker over the serialised bytes; distinct = (family, tx count, resulting tx count, witness)", 30.0, 600.0),
         "C13" => m("fault_enumeration", "the harness is the scheduler at the single await point (hook): random schedules of heartbeats / replies (complete 0-3 blocks, partial with 0,1,2,3,17,255 follow-ups at arbitrary split points, rejects) / queries / upgrades over a universe of valid regtest blocks served by an honest adapter model, then a reject-free drain with a step bound; plus all op sequences up to a length bound over a 6-letter alphabet; distinct = distinct op sequences", 45.0, 900.0),
         "C07" => m("exploration", "all (start,end) pairs up to tip+2 on every state of histories (sampled when tip > 40), also at pause points of sliced ingestions and after upgrades; distinct = (class, start, last, tip, stable height, paused)", 35.0, 600.0),
         _ => None,
@@ -59,6 +61,14 @@ pub fn run(ctx: &mut Ctx) {
     match prop.as_str() {
         "C01" | "C02" | "C03" | "C04" | "C05" | "C07" | "C15" | "C20" => lane_history(ctx),
         "C06" => crate::c06::lane_pages(ctx),
+        "C10" => crate::c10::lane_admit(ctx),
+        "C12" => {
+            let b = ctx.budget_s;
+            ctx.budget_s = b * 0.7;
+            crate::c12::lane_structure(ctx);
+            ctx.budget_s = b;
+            crate::c12::lane_structure_canister(ctx);
+        }
         "C13" => {
             let b = ctx.budget_s;
             ctx.budget_s = b * 0.6;
